@@ -13,6 +13,9 @@ against oracles computed from the raw pointers of the pool trees (specs/splitsum
                                belongs to the i-th tree in accession order
   <op>.frequencies / .counts   split counts, normaliser and frequencies == direct count
   <op>.edge-lengths / .node-ages   per-split value collections == expected multisets
+  <op>.age-summaries           age mean/median/range/sd written on the consensus tree == statistics
+                               of the per-split ages of the accessioned trees (all four combinations
+                               of ignore_edge_lengths x ignore_node_ages are run on the ultrametric pool)
   <op>.query[...]              every per-tree query works (scores, MCCT, restore_tree,
                                topologies, consensus ...) and returns the expected value
   <op>.consensus / .mcct       consensus splits + supports; argmax/score/topology
@@ -30,7 +33,9 @@ deterministically by (a).
 Left out: use_tree_weights=False (TreeArray does not forward it to its distribution: a C05
 finding, recorded there); real OS scheduling / Queue delivery (N/A clause of DESIGN.md); settings-
 incompatible merges (the statement allows them to fail); TreeArray.__delitem__/clear/...
-(NotImplementedError by design)."""
+(NotImplementedError by design); the partial-leafset pool is
+rooted only (unrooted split bitmasks are normalised per tree leaf set, so splits of trees with
+different leaf sets have no common identity to count against)."""
 import io
 import itertools
 import os
@@ -79,7 +84,17 @@ ULTRA = [
     _L(_L(_leaf("A", 0.25), _leaf("B", 0.25), l=2.0), _L(_L(_leaf("C", 0.5), _leaf("D", 0.5), l=0.25), _leaf("E", 0.75), l=1.5)),
     _L(_L(_L(_leaf("A", 0.5), _leaf("C", 0.5), l=1.0), _leaf("B", 1.5), l=0.5), _L(_leaf("D", 1.0), _leaf("E", 1.0), l=1.0)),
 ]
-POOLS = {"plain": PLAIN, "ultra": ULTRA}
+# partial pool (rooted only): the leaves of a tree carry only a SUBSET of the namespace, a
+# different one in every tree, so that the per-tree leafset bitmasks differ and entry i of
+# _tree_leafset_bitmasks is observable (it decides which splits count as internal in the scores)
+PARTIAL = [
+    _L(_L(_leaf("A", 1.0), _leaf("B", 0.5), l=0.25), _L(_leaf("C", 2.0), _leaf("D", 1.0), l=0.75)),                     # no E
+    _L(_L(_leaf("B", 2.0), _leaf("C", 1.25), l=0.5), _L(_leaf("D", 1.0), _leaf("E", 3.0), l=1.0)),                      # no A
+    _L(_L(_L(_leaf("A", 0.5), _leaf("B", 0.75), l=2.0), _leaf("C", 1.0), l=0.5), _L(_leaf("D", 0.25), _leaf("E", 3.5), l=1.5)),  # all
+    _L(_L(_leaf("A", 1.5), _leaf("B", 2.5), l=0.5), _L(_leaf("D", 0.5), _leaf("E", 1.0), l=2.0)),                       # no C
+    _L(_L(_leaf("C", 3.0), _leaf("D", 1.0), l=0.125), _L(_leaf("A", 1.0), _leaf("E", 2.0), l=0.375)),                   # no B
+]
+POOLS = {"plain": PLAIN, "ultra": ULTRA, "partial": PARTIAL}
 WEIGHTS = {"none": [None] * 5, "mixed": [None, 2, 0.5, 1, 2]}
 
 
@@ -102,9 +117,12 @@ class Pool(object):
         self.ns = K.make_namespace(LABELS)
         self.L = frozenset(LABELS)
         self.bits = Q.bit_table(self.ns)
-        self.split_sets, self.edge_vals, self.ages = [], [], []
+        self.split_sets, self.edge_vals, self.ages, self.Ls = [], [], [], []
+        if case["pool"] == "partial" and self.rooted is not True:
+            raise ValueError("the partial-leafset pool is rooted only (unrooted splits of different leaf sets are not comparable)")
         for sp in self.specs:
             t = K.build(sp, self.ns, rooted=self.rooted)
+            self.Ls.append(Q.leaf_labels(t))
             self.split_sets.append(Q.tree_splits(t, self.r, self.L))
             self.edge_vals.append(Q.split_edge_values(t, self.r, self.L))
             self.ages.append(Q.split_node_ages(t, self.r, self.L) if case["pool"] == "ultra" else None)
@@ -200,10 +218,10 @@ def audit(P, ta, order, fails, op, ns=None, light=False):
     except Exception as ex:
         bad("query[len]", "%s: %s" % (type(ex).__name__, ex))
     if aligned:
-        all_mask = 0
-        for lab in L:
-            all_mask |= bits[lab]
         for pos, i in enumerate(order):
+            all_mask = 0
+            for lab in P.Ls[i]:
+                all_mask |= bits[lab]
             sb, el = ta.get_split_bitmask_and_edge_tuple(pos)
             got = {}
             for m, l in zip(sb, el):
@@ -229,7 +247,8 @@ def audit(P, ta, order, fails, op, ns=None, light=False):
                 aligned = False
                 break
             if ta._tree_leafset_bitmasks[pos] != all_mask:
-                bad("lists-aligned[leafset_bitmasks]", "entry %d: leafset bitmask %r" % (pos, ta._tree_leafset_bitmasks[pos]))
+                bad("lists-aligned[leafset_bitmasks]", "entry %d: leafset bitmask %r, tree T%d has leaves %s (bitmask %r)"
+                    % (pos, ta._tree_leafset_bitmasks[pos], i, "".join(sorted(P.Ls[i])), all_mask))
                 aligned = False
                 break
     # ---- the distribution
@@ -269,8 +288,9 @@ def audit(P, ta, order, fails, op, ns=None, light=False):
             if any(x is None for x in b) or sorted(b) != a:
                 bad("edge-lengths", "split %s: collected lengths %r, the trees give %r" % (Q.split_key(s, r), b, a))
                 break
+    ages_want = {}
     if ages_on:
-        want = {}
+        want = ages_want
         for i in order:
             for s, v in P.ages[i].items():
                 want.setdefault(s, []).append(v)
@@ -301,7 +321,7 @@ def audit(P, ta, order, fails, op, ns=None, light=False):
         ok, res = q(nm, getattr(ta, nm))
         if ok:
             scores, idx = res
-            want = [Q.score_conventions(P.split_sets[i], exp, L, r, use_log, False) for i in order]
+            want = [Q.score_conventions(P.split_sets[i], exp, P.Ls[i], r, use_log, False) for i in order]
             if len(scores) != n or not Q.scores_match(scores, want):
                 bad("mcct", "%s: scores %r are not those of the accessioned trees (expected %r)" % (nm, scores, [w[0] for w in want]))
             elif idx is None or scores[idx] != max(scores):
@@ -360,6 +380,22 @@ def audit(P, ta, order, fails, op, ns=None, light=False):
                     s = Q.node_split(nd, L, r)
                     if not Q.feq(getattr(nd, "support", None), exp.get(s, Fraction(0)), 1e-9):
                         bad("consensus", "min_freq=%r: node %s has support %r, frequency %s" % (th, Q.split_key(s, r), getattr(nd, "support", None), exp.get(s, 0)))
+                        break
+                # age summaries written on the consensus == statistics of the per-split ages of
+                # the accessioned trees (i.e. of one-at-a-time addition)
+                for nd in (S.pre(con._seed_node) if (summ and ages_on) else ()):
+                    s = Q.node_split(nd, L, r)
+                    av = ages_want.get(s)
+                    if not av:
+                        continue
+                    rng_ = getattr(nd, "age_range", None)
+                    okk = (Q.approx(getattr(nd, "age_mean", None), Q.mean(av)) and Q.approx(getattr(nd, "age_median", None), Q.median(av))
+                           and rng_ is not None and len(rng_) == 2 and Q.approx(rng_[0], min(av)) and Q.approx(rng_[1], max(av))
+                           and (len(av) < 2 or Q.approx(getattr(nd, "age_sd", None), Q.sample_sd(av))))
+                    if not okk:
+                        bad("age-summaries", "consensus node %s: age mean/median/range/sd = %r/%r/%r/%r, ages of the trees %r"
+                            % (Q.split_key(s, r), getattr(nd, "age_mean", None), getattr(nd, "age_median", None), rng_,
+                               getattr(nd, "age_sd", None), sorted(av)))
                         break
             if P.rooted is not None and con.is_rooted is not P.rooted:
                 bad("consensus", "consensus is_rooted=%r for inputs with is_rooted=%r" % (con.is_rooted, P.rooted))
@@ -431,7 +467,10 @@ def _history(case):
             clause = "refuses-empty-collection" if empty_side else "raises"
             fails.append(("%s.%s" % (name, clause), "%s: %s (at %s)" % (type(ex).__name__, str(ex)[:200], where)))
         if not fails:
-            audit(P, master, order, fails, name)
+            # exhaustive scopes contain every prefix as a history of its own, so there the
+            # per-tree queries are only run after the last operation (lists, counts, frequencies
+            # and value collections are still audited after every step)
+            audit(P, master, order, fails, name, light=bool(case.get("final_only")) and j < len(case["ops"]) - 1)
         if fails:
             sub_case = dict(case, ops=case["ops"][: j + 1])
             k = _hist_key(case, j)
@@ -754,7 +793,8 @@ def gen_histories(maxlen, alphabet, scope, configs, masters=("None", "explicit")
                     if ops is None:
                         continue
                     yield dict(scope=scope, nontrivial=(n >= 2 and any(c[0] == "merge" for c in combo)),
-                               case=dict(what="history", rooted=rooted, pool=pool, weights=wts, settings=st, master=master, ops=ops))
+                               case=dict(what="history", rooted=rooted, pool=pool, weights=wts, settings=st, master=master, ops=ops,
+                                         final_only=True))
 
 
 def gen_random_histories(rng, count, alphabet, scope, lmin, lmax):
@@ -762,6 +802,10 @@ def gen_random_histories(rng, count, alphabet, scope, lmin, lmax):
         (False, "plain", "none", {}), (True, "plain", "none", {}), (True, "ultra", "none", {"ignore_node_ages": False}),
         (None, "plain", "none", {}), (False, "plain", "mixed", {}), (True, "plain", "mixed", {}),
         (True, "plain", "none", {"ignore_edge_lengths": True}), (False, "plain", "none", {"ignore_edge_lengths": True}),
+        (True, "partial", "none", {}), (True, "partial", "mixed", {}),
+        (True, "ultra", "none", {"ignore_edge_lengths": True, "ignore_node_ages": False}),
+        (True, "ultra", "none", {"ignore_edge_lengths": True, "ignore_node_ages": True}),
+        (True, "ultra", "mixed", {"ignore_edge_lengths": False, "ignore_node_ages": True}),
     ]
     n = 0
     while n < count:
@@ -885,6 +929,25 @@ def t2(ctx):
         "block size {0,1,2} (%d operations), pool trees consumed in order, x master {implicit, explicit rooting} x "
         "{unrooted, rooted with tree weights, rooted ultrametric with node ages}; audited after every step; non-trivial = >=2 ops with a merge"
         % (L, len(alpha)), True, gen_histories(L, alpha, "histories<=%d" % L, _configs(quick)))
+    small = [a for a in alpha if (a[0] == "single" and a[1] in (["add_tree"], ["insert", "0"]))
+             or (a[0] == "merge" and a[2] in ("add", "explicit", "read") and a[3] <= 1)]
+    singles = [a for a in alpha if a[0] == "single"]
+    part = [(True, "partial", "none", {})]
+    ls = 4 if quick else 5
+    run("leafsets,singles<=%d" % ls, "rooted pool whose trees carry different SUBSETS of the namespace (A-D, B-E, all, ABDE, ACDE): every "
+        "schedule of <=%d accessions by add_tree / append / insert@0 / insert@mid / insert@-1 x master {implicit, explicit}; the i-th "
+        "leafset bitmask, the scores / argmax / maximum-credibility tree and every other audit against per-tree oracles" % ls, True,
+        gen_histories(ls, singles, "leafsets,singles<=%d" % ls, part))
+    la = small if quick else alpha
+    run("leafsets,merges<=2", "same pool, every history of 1-2 operations over the %s alphabet (%d operations incl. the 5 merges)"
+        % ("reduced" if quick else "full", len(la)), True, gen_histories(2, la, "leafsets,merges<=2", part))
+    combos = [(True, "ultra", "none", {"ignore_edge_lengths": True, "ignore_node_ages": False}),
+              (True, "ultra", "none", {"ignore_edge_lengths": True, "ignore_node_ages": True}),
+              (True, "ultra", "none", {"ignore_edge_lengths": False, "ignore_node_ages": True})]
+    run("settings<=2", "rooted ultrametric pool under the option combinations (ignore_edge_lengths, ignore_node_ages) = (T,F), (T,T), (F,T) "
+        "[(F,F) is in histories<=2]: every history of 1-2 operations over the %s alphabet (%d operations); per-split node-age multisets "
+        "and the age summaries on the consensus tree against the per-tree oracle" % ("reduced" if quick else "full", len(la)), True,
+        gen_histories(2, la, "settings<=2", combos))
     if not quick:
         small = [a for a in alpha if (a[0] == "single" and a[1] in (["add_tree"], ["insert", "0"]))
                  or (a[0] == "merge" and a[2] in ("add", "explicit", "read") and a[3] <= 1)]
